@@ -154,6 +154,9 @@ func Valid(r *rand.Rand) Case {
 	if r.Intn(40) == 0 {
 		return macro(r)
 	}
+	if r.Intn(12) == 0 {
+		return rare(r)
+	}
 	s := &oracle.Spec{}
 	var f [7]string
 	feat := ""
@@ -245,6 +248,75 @@ func Valid(r *rand.Rand) Case {
 		f[6], s.Year = genFieldB(r, 1970, 2300, 1970, 3940, nil, "*")
 	}
 	return Case{Expr: render(r, f[:]), Spec: s, Feature: feat, Expect: MustAccept}
+}
+
+// rare generates expressions that never fire or fire only every few years: the deepest searches of the
+// state machine (termination, exact expiry, no iteration cap).
+func rare(r *rand.Rand) Case {
+	s := &oracle.Spec{DomKind: "any", DowKind: "none"}
+	tod := func() (string, string, string) {
+		h, m, sec := pick(r, 0, 23), pick(r, 0, 59), pick(r, 0, 59)
+		s.Hour, s.Min, s.Sec = []int{h}, []int{m}, []int{sec}
+		return fmt.Sprint(sec), fmt.Sprint(m), fmt.Sprint(h)
+	}
+	sec, min, hour := tod()
+	months := func(cands []int) (string, []int) {
+		var ms []int
+		var parts []string
+		for _, m := range cands {
+			if r.Intn(2) == 0 {
+				ms = append(ms, m)
+				parts = append(parts, lit(r, m, monthNames))
+			}
+		}
+		if len(ms) == 0 {
+			ms, parts = []int{cands[0]}, []string{fmt.Sprint(cands[0])}
+		}
+		return strings.Join(parts, ","), ms
+	}
+	year := "*"
+	if r.Intn(3) == 0 {
+		a := 1970 + r.Intn(280)
+		b := a + r.Intn(60)
+		year = fmt.Sprintf("%d-%d", a, b)
+		for y := a; y <= b; y++ {
+			s.Year = append(s.Year, y)
+		}
+	}
+	var dom, mon, dow = "?", "*", "?"
+	switch r.Intn(6) {
+	case 0: // day 30/31 in months that do not have it
+		d := 30 + r.Intn(2)
+		c := []int{2}
+		if d == 31 {
+			c = []int{2, 4, 6, 9, 11}
+		}
+		mon, s.Month = months(c)
+		dom, s.DomKind, s.DomSet = fmt.Sprint(d), "set", []int{d}
+	case 1: // Feb 29
+		mon, s.Month = "2", []int{2}
+		dom, s.DomKind, s.DomSet = "29", "set", []int{29}
+	case 2: // fifth weekday in short or arbitrary months
+		w := pick(r, 1, 7)
+		mon, s.Month = months([]int{2, 4, 6, 9, 11, 2})
+		dow, s.DowKind, s.DowSet, s.DowN = fmt.Sprintf("%s#5", lit(r, w, dayNames)), "hash", []int{w - 1}, 5
+	case 3: // L-n that rarely or never exists
+		n := 28 + r.Intn(4)
+		dom, s.DomKind, s.DomN = fmt.Sprintf("L-%d", n), "Lminus", n
+		if r.Intn(2) == 0 {
+			mon, s.Month = months([]int{2, 4, 9})
+		}
+	case 4: // a weekday on a fixed date pattern: nW at month end in one month
+		dom, s.DomKind, s.DomSet = "31W", "W", []int{31}
+		mon, s.Month = months([]int{2, 2, 6})
+	default: // only years beyond the representable range, or the very last ones
+		a := 2255 + r.Intn(20)
+		year = fmt.Sprint(a)
+		s.Year = []int{a}
+		mon, s.Month = months([]int{1, 6, 12})
+	}
+	f := []string{sec, min, hour, dom, mon, dow, year}
+	return Case{Expr: render(r, f), Spec: s, Feature: "rare", Expect: MustAccept}
 }
 
 var ws = []string{" ", " ", " ", "  ", "\t", " \t ", "\n", "\r\n", "\f"}
